@@ -112,3 +112,59 @@ func VerifC09ReadBuffer() {
 	verifAssert(q.Depth() == 0, "depth-zero-after-drain")
 	verifCover("end")
 }
+
+// VerifC09CloseWhileConsuming: a consumer goroutine keeps receiving from ReadChan (as the spool's forwarder does)
+// while the queue is closed; the interleaving of the close with the deliveries is a decision variable (bounded
+// preemption at lock / channel operations). After reopening, what the consumer got before plus what is delivered
+// afterwards is exactly the enqueued messages, in order, each once, and the depth at reopen equals the number not
+// yet delivered.
+func VerifC09CloseWhileConsuming() {
+	dir := verifTempDir()
+	VerifCrashPoint = func(string) { verifFsHooked() }
+	q := NewDiskQueue("q", dir, 1<<20, 100, time.Hour).(*DiskQueue)
+	n := 2 + verifChoice("nmsgs", 2)
+	var model [][]byte
+	for i := 0; i < n; i++ {
+		m := []byte{byte('a' + i), verifByte("payload")}
+		verifAssert(q.Put(m) == nil, "put-ok")
+		model = append(model, m)
+	}
+	verifSettle()
+	var got [][]byte
+	stop := make(chan bool)
+	done := make(chan bool)
+	rc := q.ReadChan()
+	go func() {
+		for {
+			select {
+			case m := <-rc:
+				got = append(got, m)
+			case <-stop:
+				done <- true
+				return
+			}
+		}
+	}()
+	verifPreemptions(verifParamInt("preemptions", 2))
+	err := q.Close()
+	verifPreemptions(0)
+	verifAssert(err == nil, "close-ok")
+	stop <- true
+	<-done
+	q2 := NewDiskQueue("q", dir, 1<<20, 100, time.Hour).(*DiskQueue)
+	verifSettle()
+	verifAssert(q2.Depth() == int64(len(model)-len(got)), "depth-equals-undelivered")
+	all := append([][]byte{}, got...)
+	for len(all) <= len(model) {
+		m, ok := verifRecv(q2.ReadChan())
+		if !ok {
+			break
+		}
+		all = append(all, m)
+	}
+	verifAssert(len(all) == len(model), "drain-count")
+	if len(all) == len(model) {
+		verifAssert(verifFlat(all) == verifFlat(model), "drain-content-in-order")
+	}
+	verifCover("end")
+}
